@@ -312,7 +312,7 @@ class Loops(Part):
             "loop": loops(3),
             "placement": st.sampled_from(
                 ["ownline", "ownline", "ownline", "first", "inline",
-                 "sibling", "talns"]),
+                 "sibling", "talns", "first_indented"]),
         })
 
     # -- source text -------------------------------------------------------
@@ -360,6 +360,9 @@ class Loops(Part):
             src = "<ul>\n" + ind + el + "\n</ul>"
         elif p == "first":
             src = el
+        elif p == "first_indented":
+            # the first line of the template is a line, too
+            src = ind + el
         elif p == "inline":
             src = "<p>abc " + el + "</p>"
         else:
@@ -454,6 +457,8 @@ class Loops(Part):
             return "<ul>\n" + ind + body + "\n</ul>"
         if p == "first":
             return body
+        if p == "first_indented":
+            return ind + body
         if p == "inline":
             return "<p>abc " + body + "</p>"
         return "<p><i>s</i>" + body + "</p>"
@@ -513,7 +518,7 @@ class Loops(Part):
         o = run(o.value.render, **values.env(bindings))
         got = ("out", o.value) if o.ok else ("exc", o.exc_name)
         exp = self._predict(case)
-        exact = case["placement"] == "ownline"
+        exact = case["placement"] in ("ownline", "first_indented")
 
         def same(a, b):
             if a[0] != b[0]:
@@ -547,6 +552,102 @@ class Loops(Part):
         return {"loops:K3": "K3", "loops:K11": "K11"}.get(mismatch.bucket)
 
 
+# -- a rendering inside a rendering ----------------------------------------
+
+TREE_SRC = ('<ul><li tal:repeat="%(v)s nodes">'
+            '%(pre)s${%(v)s[0]}(${structure: sub(%(v)s[1])})%(post)s'
+            '</li></ul>')
+TREE_PROBE = ("${repeat.%(v)s.index}/${repeat.%(v)s.number}/"
+              "${repeat.%(v)s.length}/${repeat.%(v)s.letter}/"
+              "${'E' if repeat.%(v)s.end else 'e'}"
+              "${'S' if repeat.%(v)s.start else 's'}/"
+              "${repeat.%(v)s.parity}")
+
+
+def trees(depth):
+    leaf = st.lists(st.tuples(st.integers(0, 9), st.just([])), max_size=3)
+    if depth <= 1:
+        return leaf
+    return st.lists(st.tuples(st.integers(0, 9), trees(depth - 1)),
+                    max_size=3)
+
+
+class Reentrant(Part):
+    """The values of repeat[name] belong to the current position of the
+    loop of the *current* rendering: a rendering of the same template object
+    (a tree that renders its children through itself) or of another one in
+    the middle of a loop body does not change what the body reads
+    afterwards."""
+    name = "reentrant"
+    examples = {"quick": 300, "thorough": 6000}
+    floors = {"recursive": 0.4}
+
+    def strategy(self, tier):
+        return st.fixed_dictionaries({
+            "tree": trees(3),
+            "var": st.sampled_from(["n", "item", "x"]),
+            "probe_before": st.booleans(),
+            # the inner rendering: the same template object, another object
+            # with the same source, or the same object through its macro
+            "inner": st.sampled_from(["self", "self", "twin"]),
+        })
+
+    def _recursive(self, tree):
+        return any(len(kids) >= 1 for _, kids in tree) and len(tree) >= 2
+
+    def nontrivial(self, case):
+        return self._recursive(case["tree"])
+
+    def labels(self, case):
+        if self._recursive(case["tree"]):
+            yield "recursive"
+        yield "inner_" + case["inner"]
+
+    def source(self, case):
+        v = case["var"]
+        probe = TREE_PROBE % {"v": v}
+        return TREE_SRC % {"v": v,
+                           "pre": "[" + probe + "]" if case["probe_before"]
+                           else "", "post": "[" + probe + "]"}
+
+    def expected(self, case, tree=None):
+        tree = case["tree"] if tree is None else tree
+        if not tree:
+            return "<ul></ul>"
+        items = []
+        n = len(tree)
+        for i, (name, kids) in enumerate(tree):
+            probe = "[%d/%d/%d/%s/%s%s/%s]" % (
+                i, i + 1, n, doc_letter(i), "E" if i == n - 1 else "e",
+                "S" if i == 0 else "s", "odd" if i % 2 else "even")
+            sub = self.expected(case, kids) if kids else ""
+            items.append("<li>%s%d(%s)%s</li>" % (
+                probe if case["probe_before"] else "", name, sub, probe))
+        return "<ul>" + "\n".join(items) + "</ul>"
+
+    def oracle(self, case):
+        from chameleon import PageTemplate
+        src = self.source(case)
+        o = run(PageTemplate, src)
+        if not o.ok:
+            return Mismatch("reentrant:compile raises " + o.exc_name,
+                            {"source": src, "outcome": o.brief()})
+        t = o.value
+        inner = t if case["inner"] == "self" else PageTemplate(src)
+
+        def sub(kids):
+            return inner.render(nodes=kids, sub=sub) if kids else ""
+        o = run(t.render, nodes=case["tree"], sub=sub)
+        got = o.value if o.ok else "exc " + o.exc_name
+        exp = self.expected(case)
+        if got != exp:
+            return Mismatch("reentrant:repeat values after an inner "
+                            "rendering (%s)" % case["inner"],
+                            {"source": src, "tree": case["tree"],
+                             "got": got, "expected": exp})
+        return None
+
+
 CHECK = Check(
     "C08", "exploration",
     rule=("positions: exhaustive over all lengths up to the tier bound and "
@@ -554,10 +655,14 @@ CHECK = Check(
           "five iterable kinds for short lengths, non-trivial = length >= 2; "
           "loops: generated nestings (depth <= 3) of tal:repeat over list/"
           "tuple/generator/range/dict views/str/None with probes of the loop "
-          "variables and repeat.x.*, five placements; non-trivial = some "
+          "variables and repeat.x.*, six placements; non-trivial = some "
           "length >= 2, or nesting >= 2, or a one-shot generator; distinct "
-          "by sha1 of the case"),
-    parts=[Loops()],
+          "by sha1 of the case; reentrant: trees (depth <= 3, fan-out <= 3) "
+          "rendered by a template that renders the children of each node "
+          "through itself (or a twin object) inside the loop body and probes "
+          "repeat.x.* before and after, non-trivial = some node of a loop "
+          "with >= 2 items has children"),
+    parts=[Loops(), Reentrant()],
     stages=[Positions()],
     assumptions=[
         "letter/Letter follow the sequence documented in docs/reference.rst "
